@@ -32,12 +32,15 @@ type ReqRec struct {
 
 // HTTPTarget is an in-process recording HTTP(S) server.
 type HTTPTarget struct {
-	Addr     string
-	ln       net.Listener
-	srv      *http.Server
-	mu       sync.Mutex
-	reqs     []*ReqRec
-	NewConns atomic.Int64
+	Addr       string
+	ln         net.Listener
+	srv        *http.Server
+	mu         sync.Mutex
+	reqs       []*ReqRec
+	NewConns   atomic.Int64
+	Connects   atomic.Int64 // CONNECT requests served (tunnels)
+	tunnelOnce sync.Once
+	tunnelLn   *chanListener
 	// Respond writes the response; nil ⇒ 200 "ok". It runs after the request was recorded.
 	Respond func(rec *ReqRec, w http.ResponseWriter, r *http.Request)
 }
@@ -70,7 +73,46 @@ func NewHTTPTarget(useTLS bool) (*HTTPTarget, error) {
 	return t, nil
 }
 
+// chanListener feeds hijacked CONNECT tunnels back into an HTTP server.
+type chanListener struct {
+	ch   chan net.Conn
+	addr net.Addr
+	done chan struct{}
+}
+
+func (l *chanListener) Accept() (net.Conn, error) {
+	select {
+	case c := <-l.ch:
+		return c, nil
+	case <-l.done:
+		return nil, net.ErrClosed
+	}
+}
+func (l *chanListener) Close() error   { return nil }
+func (l *chanListener) Addr() net.Addr { return l.addr }
+
 func (t *HTTPTarget) handle(w http.ResponseWriter, r *http.Request) {
+	if r.Method == http.MethodConnect {
+		// act as the proxy and as the origin: answer 200 and serve HTTP inside the tunnel
+		t.Connects.Add(1)
+		hj, ok := w.(http.Hijacker)
+		if !ok {
+			w.WriteHeader(500)
+			return
+		}
+		c, _, err := hj.Hijack()
+		if err != nil {
+			return
+		}
+		_, _ = c.Write([]byte("HTTP/1.1 200 OK\r\n\r\n"))
+		t.tunnelOnce.Do(func() {
+			t.tunnelLn = &chanListener{ch: make(chan net.Conn, 64), addr: t.ln.Addr(), done: make(chan struct{})}
+			inner := &http.Server{Handler: http.HandlerFunc(t.handle)}
+			go func() { _ = inner.Serve(t.tunnelLn) }()
+		})
+		t.tunnelLn.ch <- c
+		return
+	}
 	body, _ := io.ReadAll(r.Body)
 	rec := &ReqRec{Method: r.Method, URI: r.RequestURI, Host: r.Host, Header: r.Header.Clone(), Body: body,
 		Conn: r.RemoteAddr, At: time.Now(), TLS: r.TLS != nil, Proto: r.Proto}
@@ -104,6 +146,7 @@ func (t *HTTPTarget) Reset() {
 	t.reqs = nil
 	t.mu.Unlock()
 	t.NewConns.Store(0)
+	t.Connects.Store(0)
 }
 
 func (t *HTTPTarget) Close() { _ = t.srv.Close() }
